@@ -23,6 +23,9 @@ ST_ = "magpylib/_src/style.py"
 TU_ = "magpylib/_src/display/traces_utility.py"
 TMF = FD + "field_BH_triangularmesh.py"
 MUTANTS = [
+    ("C19", "colour-slabs-deduplicated-colours", TU_, "    colors = [[v[1] for v in cs if v[0] == pos][-1] for pos in positions[:-1]]", "    colors = list(dict.fromkeys([v[1] for v in cs]))", "red"),
+    ("C18", "style-class-correct-deepcopy-hook", "magpylib/_src/defaults/defaults_utility.py", "    def copy(self):",
+     "    def __deepcopy__(self, memo):\n        import copy as _c\n\n        new = type(self).__new__(type(self))\n        memo[id(self)] = new\n        new.__dict__.update(_c.deepcopy(self.__dict__, memo))\n        return new\n\n    def copy(self):", "equivalent"),
     ("C18", "copy-keeps-parent-during-deepcopy", BG, "            self._parent = None\n            try:", "            try:", "red"),
     ("C18", "copy-kwargs-applied-to-original", BG, "                setattr(obj_copy, k, v)", "                setattr(self, k, v)", "red"),
     ("C18", "style-class-shares-on-deepcopy", "magpylib/_src/defaults/defaults_utility.py", "    def copy(self):", "    def __deepcopy__(self, memo):\n        return self\n\n    def copy(self):", "red"),
